@@ -1287,7 +1287,9 @@ class DNA(symbolic.Object):
       elif len(self.children) == 1:
         child = self.children[0].to_numbers(flatten)
         if isinstance(child, tuple):
-          return tuple([self.value, list(child)])
+          # A single child with its own children: keep it as one element so
+          # that it is not mistaken for several children of this node.
+          return (self.value, [child])
         else:
           return (self.value, child)
       else:
